@@ -169,7 +169,7 @@ Proof.
 Qed.
 
 (* for every environment whose leaf tables pass the condition: every encoder / decoder pair the table
-   condition of the struct kinds admits is inverse up to the normal form - Source, PublicKey and Endpoints
+   condition of the struct kinds accepts is inverse up to the normal form - Source, PublicKey and Endpoints
    (table-driven, one level down) included *)
 Theorem C03_codec_pairs :
   forall (E : gob_env), gob_whole_ok E = true ->
@@ -185,7 +185,7 @@ Theorem C03_codec_pairs :
                match ov with Some v => norm_fval (ge_layout E) (ge_layout_endpoints E) v | None => None end.
 Proof. exact codec_pairs_kind. Qed.
 
-(* a guard the condition admits holds on every value with a non-empty normal form *)
+(* a guard the condition accepts holds on every value with a non-empty normal form *)
 Theorem C03_guards_partial :
   forall (E : gob_env) t v g has,
     shape_ok t v = true -> norm_fval (ge_layout E) (ge_layout_endpoints E) v <> None -> guard_ok g t = true ->
